@@ -224,6 +224,8 @@ def check(ck: Check) -> None:
     from .c09 import r09_flow
     ck.run("R09.flow", "relayed blocks: rejected ones (also by an error while validating) leave state and store as they were", lambda: r09_flow(ck))
     ck.run("R01.11", "key semantics of an output reference", lambda: r01_11(ck))
+    from .c18 import r18_7
+    ck.run("R18.7", "full validation applies above the recorded checkpoint horizon, which has not moved", lambda: r18_7(ck))
     from .common import rule_eq
     ck.run("R01.12", "value semantics of what the unspent map stores and the duplicate checks compare", lambda: (
         rule_eq(ck, "R01.12", "skepticoin.datatypes.Output", ["value", "public_key"], "the spent output's key and value are what the checks read"),
